@@ -334,6 +334,19 @@ static void history_case(const std::vector<Op> &ops, pbt::Ctx &ctx)
       break;
     }
     case H_COMPARE: {
+      const int hbPick = pickHandle((int)(op.b % 4), true, -1), hdPick = pickHandle(4 + (int)(op.c % 2), false, -1);
+      if (op.a % 2 == 0 && exists[hbPick] && exists[hdPick]) {
+        // a handle to the base type compared with a handle to the derived type
+        const int hbI = hbPick, hdI = hdPick;
+        const bool same = target[hbI] == target[hdI];
+        const bool eq1 = *hb[hbI] == *hd[hdI - 4], eq2 = *hd[hdI - 4] == *hb[hbI];
+        const bool ne1 = *hb[hbI] != *hd[hdI - 4], ne2 = *hd[hdI - 4] != *hb[hbI];
+        PBT_ASSERT_MSG(eq1 == same && eq2 == same && ne1 == !same && ne2 == !same,
+            "IntrusivePtr<Base> vs IntrusivePtr<Derived>: == gives " << eq1 << "/" << eq2 << ", != gives " << ne1 << "/" << ne2 << " but the handles point at "
+                                                                      << (same ? "the same object" : "different objects"));
+        ctx.label("compare base handle with derived handle");
+        break;
+      }
       if ((h < 4) != (g < 4))
         g = h < 4 ? g % 4 : 4 + g % 2;
       if (!exists[h] || !exists[g])
